@@ -106,6 +106,9 @@ func (s Spec) TypeBounds() (lo, hi *big.Rat) {
 	return nil, nil
 }
 
+// Bound evaluates a range boundary.
+func (s Spec) Bound(b string) *big.Rat { return s.bound(b) }
+
 func (s Spec) bound(b string) *big.Rat {
 	lo, hi := s.TypeBounds()
 	switch b {
